@@ -30,10 +30,11 @@ struct mcount_regs {
 struct mcount_arch_context {
 	/*
 	 * whole registers: vector and __float128 arguments use the upper half of
-	 * an xmm register, AVX vector arguments the upper half of a ymm register
+	 * an xmm register, AVX / AVX-512 vector arguments the upper part of a ymm /
+	 * zmm register
 	 */
 	struct {
-		unsigned long v[4];
+		unsigned long v[8];
 	} xmm[ARCH_MAX_FLOAT_ARGS];
 };
 
